@@ -31,8 +31,25 @@ start/run(event)/stop/restart calls"), decided in this round:
   harmless (a parent leaves a state only after stopping its sub-machine).
 * destroying a machine (`delete` from inside one of its own callbacks, or while running) is not one
   of the four calls; `~Impl` asserts `cb_level_ == 0` and runs no exit action.  Not modelled.
-* `setStateChangedCallback` from inside the state-changed callback replaces the executing
-  `std::function`; definition calls are not among the calls of the quantifier.  Not modelled.
+* definition calls issued WHILE THE MACHINES RUN (from callback bodies) are not among the four calls
+  of the quantifier, but the API allows them and round 3 models them (ArenaDef.lean, `dCall`; theorems
+  in PropsDef.lean): `newState/addRoute/addEvent/setSubStateMachine` test `is_running_` and are refused
+  on every running machine — in particular on the machine whose callback is executing, so the `routes`
+  vector an in-flight `find_if` iterates is never modified (`C16_def_scan_table_stable`);
+  `setInitState/setStateChangedCallback` have no check and are performed at any point of a transition
+  (`C16_def_init_and_cb_not_refused`): the last sentence of the statement ("calls made on a machine
+  from inside its own actions are rejected") is about the four calls of the quantifier, and per
+  machine object balance / order / rejection of those four hold whatever definition calls callbacks
+  issue (`C16_def_arena_*`).  `setStateChangedCallback` from inside the notification replaces the
+  executing `std::function` (the C++ destroys the closure that is running: a user closure that touches
+  its captures afterwards reads freed memory; the harness's closure works on copies); the code itself
+  touches nothing of the old closure after the assignment, the model runs the script it read.
+* the handler-return convention: state_machine.h documents "< 0 = no state change, >= 0 = change
+  state"; the statement says "a per-state event handler MAY pick the target, otherwise the first
+  route …".  The code as found tested `== -1` only: an answer of -2 reached "Should not happen" and
+  run() returned false WITHOUT scanning the routes (`C16_handler_negative_counterexample_unpatched`).
+  Decided a defect (patches/C16-03: `< 0`); model, reference semantics and arena follow the repair
+  (`C16_handler_negative_falls_through`).
 * attachment cycles: `start/stop/run` terminate on them (the re-entrancy guard cuts the recursion:
   `good_aCall` needs no acyclicity), `toJson` does not (unbounded recursion); not a hierarchy.
 -/
@@ -457,9 +474,53 @@ theorem C16_arena_no_null_deref (g : Arena) (ops : List AOp) (hf : AI.Fresh g) (
     ∀ ev ∈ (aProg g ops).2, ev.kind = .unmodelled → g.length ≤ ev.mid :=
   AI.aProg_nou ops g [] hl (AI.fresh_ainv g hf)
 
-/-
--- OPEN  arena refinement to the reference semantics (trace equality with `Spec`): tie only.
--/
+/-! Arena refinement to the reference semantics (trace equality with `Spec`) on hierarchical stores:
+PropsArena.lean (`C16_arena_refines_tree`, `C16_arena_conforms`). -/
+
+/-! ### the handler-return convention (patches/C16-03) -/
+
+/-- **Every negative handler answer means "no target".** In the repaired code (`if (next_state_id < 0)`)
+target selection after a handler answered `hret < 0` is exactly target selection after `-1` (or after
+no handler at all): the routes are scanned.  Any machine, any store, any callbacks. -/
+theorem C16_handler_negative_falls_through (rec : Rec) (g : Arena) (k : Nat) (e : Event) (hret : Int) (h : hret < 0) :
+    aSelect rec g k e hret = aSelect rec g k e (-1) := by
+  unfold aSelect
+  simp [h]
+
+/-- target selection of `run()` AS FOUND: `if (next_state_id == NULL_STATE_ID)` -/
+def aSelectAsFound (rec : Rec) (g : Arena) (k : Nat) (e : Event) (hret : Int) :
+    Arena × Option (StateId × Option Nat × Option Script) × ATrace :=
+  if hret = -1 then aSelect rec g k e (-1) else (g, some (hret, none, none), [])
+
+/-- machine 0 running in state 1, whose wildcard route leads to state 2 -/
+def negArena : Arena :=
+  [{ mid := 0, init := 1, cb := none, rt := { running := true, curr := some 1 },
+     states := [{ id := 1, enter := none, exit := some [], routes := [⟨0, 2, none, none⟩], events := [], dflt := none, sub := none },
+                { id := 2, enter := some [], exit := none, routes := [], events := [], dflt := none, sub := none }] }]
+
+/-- **Code as found: a handler answering -2.** Selection hands -2 to the transition code as if it were
+a target; no state -2 exists, so `run()` returns false ("Should not happen") and the machine stays in
+state 1 — although the wildcard route 1 → 2 is eligible.  The repaired selection takes that route
+(replay: corpus/C16/06-handler-returns-minus-2.ops). -/
+theorem C16_handler_negative_counterexample_unpatched :
+    let rc := aCall Fix.all 4
+    (aSelectAsFound rc negArena 0 ⟨1, 0⟩ (-2)).2.1 = some (-2, none, none) ∧
+    (aTransition rc negArena 0 ⟨1, 0⟩ (-2) none none).2.1 = false ∧
+    ((aTransition rc negArena 0 ⟨1, 0⟩ (-2) none none).1.get 0).rt.curr = some 1 ∧
+    (aSelect rc negArena 0 ⟨1, 0⟩ (-2)).2.1 = some (2, some 0, none) ∧
+    ((aTransition rc negArena 0 ⟨1, 0⟩ 2 (some 0) none).1.get 0).rt.curr = some 2 := by
+  decide
+
+/-- a handler answering -7 on a machine with an eligible route -/
+def negTree : Mach 0 :=
+  { mid := 0, init := 1, cb := none, rt := {},
+    states := [{ id := 1, enter := none, exit := none, routes := [⟨0, 2, none, none⟩], events := [(1, ⟨[], -7, []⟩)], dflt := none, sub := none },
+               { id := 2, enter := none, exit := none, routes := [], events := [], dflt := none, sub := none }] }
+
+/-- non-vacuity of `C16_handler_negative_falls_through`, and the tree model / reference semantics agree on it -/
+example :
+    (rootRt 0 (exec 0 negTree [.start, .run ⟨1, 0⟩]).1).curr = some 2 ∧
+    (exec 0 negTree [.start, .run ⟨1, 0⟩]).2 = (Spec.exec 0 (abs 0 negTree) [.start, .run ⟨1, 0⟩]).2 := by decide
 
 
 
